@@ -43,7 +43,8 @@ def build(r, name, n, mask, fieldless, generics=None):
             for v in s.variants:
                 v.disc = None
         if any(v.disc and v.disc[1] < 0 for v in s.variants):
-            s.repr = r.choice(["i8", "i32", "isize"])
+            ds = model.discriminants(s)
+            s.repr = r.choice(["i8", "i32", "isize"] if -128 <= min(ds) and max(ds) <= 127 else ["i32", "isize"])
     ders = ["EnumCount", "EnumIter", "VariantNames"]
     if fieldless and not generics:
         ders += ["VariantArray", "Display", "AsRefStr"]
